@@ -137,6 +137,9 @@ func (h *aesMAC) MACCreate(data []byte) ([]byte, error) {
 	if !h.key.Ops().EmptyOrHas(iana.KeyOperationMacCreate) {
 		return nil, fmt.Errorf("cose/key/aesmac: MACer.MACCreate: invalid key_ops")
 	}
+	if len(data) == 0 {
+		return nil, fmt.Errorf("cose/key/aesmac: MACer.MACCreate: empty data")
+	}
 
 	return h.create(data), nil
 }
@@ -146,6 +149,9 @@ func (h *aesMAC) MACCreate(data []byte) ([]byte, error) {
 func (h *aesMAC) MACVerify(data, mac []byte) error {
 	if !h.key.Ops().EmptyOrHas(iana.KeyOperationMacVerify) {
 		return fmt.Errorf("cose/key/aesmac: MACer.MACVerify: invalid key_ops")
+	}
+	if len(data) == 0 {
+		return fmt.Errorf("cose/key/aesmac: MACer.MACVerify: empty data")
 	}
 
 	expectedMAC := h.create(data)
